@@ -7,6 +7,7 @@ Require Import Urcu.Gp.GpProof.
 Require Import Urcu.Gp.GpExec.
 Require Import Urcu.Gp.GpMb.
 Require Import Urcu.Gp.GpQsbr.
+Require Import Urcu.Gp.GpMbExec.
 Import ListNotations.
 
 (* memb + sys_membarrier on TSO: when a grace period ends no registered reader that was inside a section when it began is still in that section *)
@@ -44,13 +45,24 @@ Theorem C01_memb_accepted_trace_satisfies_gp :
 Proof. exact (@Urcu.Gp.GpExec.accepted_trace_satisfies_gp). Qed.
 Print Assumptions C01_memb_accepted_trace_satisfies_gp.
 
-(* mb flavor (reader-side fences) on TSO *)
+(* mb flavor (reader-side fences, local updater fences) on TSO, for any registry: when a grace period has ended no registered reader whose rcu_read_lock had completed before it began is still inside that section *)
 Theorem C01_mb_gp_waits_for_preexisting_readers :
-    forall s : GpMb.state,
-    GpMb.reach GpMb.init s ->
+    forall (isreg : nat -> bool) (s : GpMb.state),
+    GpMb.reach isreg GpMb.init s ->
     GpMb.ph s = GpMb.U_Idle -> forall r : nat, GpMb.old_open (GpMb.rd s r) = false.
 Proof. exact (@Urcu.Gp.GpMb.gp_mb_waits_for_preexisting_readers). Qed.
 Print Assumptions C01_mb_gp_waits_for_preexisting_readers.
+
+(* every action sequence accepted by the executable mb interpreter (the one the projected traces of src/urcu.c built with RCU_MB are fed to) is a run of that model, so the theorem applies to it *)
+Theorem C01_mb_accepted_trace_satisfies_gp :
+    forall (isreg : nat -> bool) (regs : list nat),
+    (forall r : nat, isreg r = true -> In r regs) ->
+    forall (l : list mact) (s' : GpMb.state),
+    mrun isreg regs l GpMb.init = Some s' ->
+    GpMb.reach isreg GpMb.init s' /\
+    (GpMb.ph s' = GpMb.U_Idle -> forall r : nat, GpMb.old_open (GpMb.rd s' r) = false).
+Proof. exact (@Urcu.Gp.GpMbExec.accepted_mb_trace_satisfies_gp). Qed.
+Print Assumptions C01_mb_accepted_trace_satisfies_gp.
 
 (* qsbr flavor (64-bit single counter; implicit sections between quiescent states, offline/online) *)
 Theorem C01_qsbr_gp_waits_for_preexisting_sections :
